@@ -1,7 +1,23 @@
 (* C19: search finds only what the query and the tag rules allow. *)
 From Coq Require Import NArith ZArith List Bool.
-Require Import Tinode.Base.Util Tinode.Pure.Query Tinode.Pure.QuerySpec.
+Require Import Tinode.Base.Util Tinode.Pure.Query Tinode.Pure.QuerySpec Tinode.Pure.QueryProofs.
 Import ListNotations.
+
+(* ---- the query parser (model of parseSearchQuery after the repair of
+   findings/C19_query.diff) computes the documented reading of EVERY query
+   string, for every lower-casing and tag-rewriting function: no bound on the
+   length, non-ASCII runes included (positions are byte offsets). ---- *)
+Theorem c19_parse_sound_complete : forall lower rewrite q r,
+  parse lower rewrite q = Ok r <-> well_formed q /\ r = denote lower rewrite q.
+Proof. exact parse_sound_complete. Qed.
+Print Assumptions c19_parse_sound_complete.
+
+(* malformed queries (unterminated quote, doubled comma, a quote glued to a
+   word or to another quote) are rejected, and only those *)
+Theorem c19_parse_err_iff : forall lower rewrite q,
+  parse lower rewrite q = Err <-> ~ well_formed q.
+Proof. exact parse_err_iff. Qed.
+Print Assumptions c19_parse_err_iff.
 
 (* The parser of the pinned tree (Query.parse_unrepaired) does NOT satisfy the
    statement: witnesses, with identity lower-casing and rewriting. *)
@@ -28,3 +44,16 @@ Proof.
   vm_compute in H. discriminate.
 Qed.
 Print Assumptions c19_unrepaired_complete_refuted.
+
+(* non-vacuity: a query using every construct, identity lower-casing and rewriting *)
+Example c19_ex_query :
+  parse (fun r => r) (fun s => s) [97; 32; 34; 98; 32; 44; 34; 44; 99; 32; 233]%N   (* a "b ,",c e-acute *)
+  = Ok ([[[97]]; [[233]]], [[98; 32; 44]; [99]])%N.
+Proof. reflexivity. Qed.
+Example c19_ex_wf : well_formed [97; 32; 34; 98; 32; 44; 34; 44; 99; 32; 233]%N.
+Proof. reflexivity. Qed.
+Example c19_ex_glued_rejected : parse (fun r => r) (fun s => s) q_glued = Err.
+Proof. reflexivity. Qed.
+Example c19_ex_quoted_second_accepted :
+  parse (fun r => r) (fun s => s) q_quoted_second = Ok ([[[97]]; [[98]]], [])%N.
+Proof. reflexivity. Qed.
